@@ -357,7 +357,7 @@ def mesh_roundtrip_rule(ctx, rid="R15.5"):
 
     def group(k):
         pdata = tuple(Lbl("part", k, nm) for nm in stored)
-        return SimpleNamespace(elemType=types[k], connect=Lbl("connect", k), _Get_partitioned_data=lambda pdata=pdata: pdata, _dict_nodes_tags={f"tag{k}": Lbl("tagnodes", k)}, dim=2 if k < 2 else 1)
+        return SimpleNamespace(elemType=types[k], connect=Lbl("connect", k), nodes=Lbl("owned-and-ghost-nodes", k), _Get_partitioned_data=lambda pdata=pdata: pdata, _dict_nodes_tags={f"tag{k}": Lbl("tagnodes", k)}, dim=2 if k < 2 else 1)
 
     groups = [group(k) for k in range(3)]
     dge = {types[k]: groups[k] for k in range(3)}
